@@ -349,7 +349,7 @@ BOUNDS = {
 
 
 EXTREME_HDRS = (0, 3)     # header menus (default, packed) crossed with the full 36^3 three-section size lattice
-EXTREME_IMPS = (0, 3)
+EXTREME_IMPS = (3,)
 
 
 def pe_cases(tier, idx, nsh):
@@ -368,8 +368,8 @@ def pe_cases(tier, idx, nsh):
                         for align_s in (True, False):
                             yield [ws, h, lay, imp, e, r], align_s
     if b.get("full_3sec"):
-        # every one of the 36^3 three-section size layouts, under the default and the packed header menu, without
-        # imports and with the largest import menu
+        # every one of the 36^3 three-section size layouts, under the default and the packed header menu, with the
+        # largest import menu
         for lay in pegen.section_layouts(3, {1: [], 2: [], 3: pegen.size_pairs()}):
             if tuple(map(tuple, lay)) in small:
                 continue
